@@ -820,7 +820,7 @@ Proof.
   unfold handle_continue_parent.
   destruct (get_stage s i) as [st|] eqn:Hs; [|exact I].
   destruct (existsb in_halt _).
-  { destruct (can_transition (s_status st) TERMINAL) eqn:C; cbn [negb]; [|exact I].
+  { cbn zeta. match goal with |- context [can_transition (s_status st) ?x] => destruct (can_transition (s_status st) x) eqn:C end; cbn [negb]; [|exact I].
     expose. split; [|exact I].
     apply (legal_one_put _ _ [] i st _ (OMark id :: OPush _ :: [])); [solve_quiet|solve_quiet|exact Hs|].
     split; [exact C|simpl; apply tasks_legal_refl]. }
